@@ -65,6 +65,14 @@ def handle : List String → String
       let o := sessionDownloadOutcome (logged log) a enc ps
       encRes (o.observed _ a.keepFile) ++ " " ++ encBool a.raw ++ " " ++ encRem (remaining log o.final)
     | _, _, _, _ => "bad-arg"
+  | ["framing", il, lp, f] =>
+    let f? : Option Framing := match f with
+      | "x" => some .chunked | "l" => some .length | "c" => some .close | _ => none
+    match f? with
+    | some f =>
+      match effectiveFraming (il == "T") (lp == "T") f with
+      | .chunked => "x" | .length => "l" | .close => "c"
+    | none => "bad-arg"
   | ["lenpieces", n, reads] =>
     match n.toNat?, decLists? reads with
     | some n, some rs => encLists (lengthPieces n rs)
